@@ -93,7 +93,7 @@ shrink = G.generic_shrink(replay)
 
 
 def plan(tier, seed):
-    specs = sweep.plan(tier, seed)
+    specs = sweep.plan(tier, seed, fuzz_mod=__name__)
     if tier == "quick":
         specs += [("hyp", seed + 7919, s, 40, 36) for s in range(16)]
     else:
